@@ -10,10 +10,20 @@ from common.framework import Failure, ImplError, Stream
 
 ID = 'C14'
 LEAN_MODULES = ['Proofs.C14']
-REQUIRED = ['C14.cycleStat_spec', 'C14.cycle_samples_exact', 'C14.getCycleStat_cycles', 'C14.project_spec', 'C14.getCycleStat_samples', 'C14.linInterp_affine', 'C14.alignCycle_affine', 'C14.phaseAlign_affine', 'C14.digitize_spec', 'C14.binByPhase_spec', 'C14.binByPhaseW_spec']
+REQUIRED = ['C14.cycleStat_spec', 'C14.cycle_samples_exact', 'C14.getCycleStat_cycles', 'C14.project_spec', 'C14.getCycleStat_samples', 'C14.linInterp_affine', 'C14.alignCycle_affine', 'C14.phaseAlign_affine', 'C14.phaseAlign_returns_iff', 'C14.alignCycle_one_sample', 'C14.digitize_spec', 'C14.binByPhase_spec', 'C14.binByPhaseW_spec']
 TRUSTED = ['bin centres / edges are taken from the real emd.spectra.define_hist_bins on the same run and handed to the model as data',
            'default cycles of phase_align are taken from the real get_cycle_vector(ip, return_good=False) (property C12) and handed to the model',
-           'float results are compared with the exact rational model within 1e-9*max(1, |input|_inf); non-finite floats (NaN, inf) are one class']
+           'float results are compared with the exact rational model within 1e-9*max(1, |input|_inf); non-finite floats (NaN, inf) are one class',
+           'WHEN phase_align returns is a theorem about the model (C14.phaseAlign_returns_iff: non-empty labels, three equal lengths, at least one '
+           'sample for every label 0..max; everything else ValueError; a one-sample cycle is accepted and yields an all-NaN column) and is tied to '
+           'the code by the correspondence of stream c14_malformed (error kinds compared exactly)',
+           'OBSERVED, NOT CLAIMED (bin_by_phase behaviours outside the property, which speaks about the bin MEANS only; recorded on every run by '
+           'stream bin_by_phase_outside, tags only): (1) variance_metric="sem" raises ValueError for every input ("could not broadcast input array '
+           'from shape (n,) into shape ()": inds.sum()[None, ...] indexes a numpy integer); (2) weights= with a 1-D x raises IndexError '
+           '(x.shape[1]) - weights need a 2-D x; (3) the weighted VARIANCE output is np.average(x - avg**2) instead of np.average((x - avg)**2) '
+           '(misplaced parenthesis; e.g. ip=[0.1,0.2,3.3,3.4,6.0,6.1], x=[[1],[3],[10],[20],[5],[7]], unit weights, 3 bins: variances '
+           '-2, -210, -30 where the unweighted route gives 1, 25, 1). The weighted and unweighted MEANS are modelled and proved '
+           '(binByPhase_spec, binByPhaseW_spec); the variance output of the weighted route and variance_metric are not part of the model']
 ASSUMPTIONS = ['scipy interp1d(kind="linear", fill_value="extrapolate") = stable sort by abscissa + searchsorted(left) clipped to [1, n-1] + '
                'straight line through the two neighbours (checked against the real scipy on every phase_align case of the run)',
                'np.digitize on increasing edges = number of edges <= value (checked on every bin_by_phase case)']
@@ -759,6 +769,13 @@ class Malformed(Stream):
             {'op': 'align', 'ip': [1.0, 1.0, 2.0, 2.0], 'x': [2.0, 3.0, 7.0, 9.0], 'cv': [0, 0, 0, 0], 'npoints': 4},   # repeated phases
             {'op': 'align', 'ip': [3.0, 1.0, 2.0, 0.5], 'x': [2.0, 3.0, 7.0, 9.0], 'cv': [0, 0, 0, 0], 'npoints': 5},   # decreasing phase: sorted first
             {'op': 'align', 'ip': [0.1, 3.0], 'x': [1.0, 2.0, 3.0], 'cv': [0, 0], 'npoints': 3},
+            # the four clauses of C14.AlignAccepts, one at a time
+            {'op': 'align', 'ip': [], 'x': [], 'cv': [], 'npoints': 3},                                                  # empty -> ValueError
+            {'op': 'align', 'ip': [0.1, 3.0, 6.0, 0.2], 'x': [1.0, 2.0, 3.0, 4.0], 'cv': [0, 0, 0], 'npoints': 3},       # labels shorter than phase
+            {'op': 'align', 'ip': [0.1, 3.0, 6.0], 'x': [1.0, 2.0, 3.0], 'cv': [0, 0, 0, 0], 'npoints': 3},              # labels longer than phase
+            {'op': 'align', 'ip': [0.1, 3.0, 6.0, 0.2, 0.3, 3.0], 'x': [1.0, 2.0, 3.0, 4.0, 5.0, 6.0], 'cv': [0, 0, 0, 2, 2, 2], 'npoints': 3},  # label 1 skipped
+            {'op': 'align', 'ip': [0.1, 3.0, 6.0, 0.2], 'x': [1.0, 2.0, 3.0, 4.0], 'cv': [-1, -1, -1, -1], 'npoints': 3},  # no cycle at all: returns 0 columns
+            {'op': 'align', 'ip': [1.0, 1.0, 1.0], 'x': [2.0, 3.0, 7.0], 'cv': [0, 0, 0], 'npoints': 4},                # one abscissa: accepted, NaN
         ]
 
     def generate(self, rng, tier):
@@ -811,4 +828,46 @@ class Malformed(Stream):
         return t
 
 
-STREAMS = [StatExhaustive(), StatRandom(), Align(), Binning(), Malformed()]
+class BinOutside(Stream):
+    """bin_by_phase behaviours OUTSIDE the property (it promises the bin means): observed and recorded as tags, never a failure.
+    The means returned alongside are still checked against a direct per-bin computation when the call returns."""
+    name = 'bin_by_phase_outside'
+    exhaustive = True
+
+    IP = [0.1, 0.2, 3.3, 3.4, 6.0, 6.1]
+    X = [1.0, 3.0, 10.0, 20.0, 5.0, 7.0]
+
+    def generate(self, rng, tier):
+        return [{'what': w} for w in ('sem', 'std', 'weights-1d-x', 'weights-2d-x-variance')]
+
+    def impl(self, case):
+        import emd
+        ip, x = np.array(self.IP), np.array(self.X)
+        w = case['what']
+        try:
+            if w in ('sem', 'std'):
+                avg, var, _ = emd.cycles.bin_by_phase(ip, x, nbins=3, variance_metric=w)
+            elif w == 'weights-1d-x':
+                avg, var, _ = emd.cycles.bin_by_phase(ip, x, nbins=3, weights=np.ones(6))
+            else:
+                avg, var, _ = emd.cycles.bin_by_phase(ip, x[:, None], nbins=3, weights=np.ones(6))
+        except Exception as e:  # noqa
+            return {'raised': type(e).__name__}
+        return {'avg': fl(avg), 'var': fl(var)}
+
+    def holds(self, case, out):
+        if isinstance(out, ImplError) or 'raised' in out:
+            return []
+        if out['avg'] != [2.0, 15.0, 6.0]:
+            return [Failure('bin-mean-wrong', str(out['avg']))]
+        return []
+
+    def tags(self, case, out):
+        if isinstance(out, ImplError):
+            return ['impl-error']
+        if 'raised' in out:
+            return ['%s:raises:%s' % (case['what'], out['raised'])]
+        return ['%s:returns:var=%s' % (case['what'], out['var'])]
+
+
+STREAMS = [StatExhaustive(), StatRandom(), Align(), Binning(), Malformed(), BinOutside()]
